@@ -1,7 +1,7 @@
 # Table read by ./check: one entry per property; each run entry is one rapid test
 # (or native fuzz target) with its per-tier case count, shard count and watchdog.
 PROPS = {}
-HOOK_COMMITS = ["f1402db2", "bf53f84e"]
+HOOK_COMMITS = ["f1402db2", "bf53f84e", "a3f07f89"]
 NOT_APPLICABLE = {}
 
 PROPS["C10"] = dict(
@@ -148,6 +148,7 @@ PROPS["C08"] = dict(
          "follower log truncation, a leader change after a commit, or a crash of a leader occurred; distinct by rendered schedule.",
     runs=[
         dict(test="TestC08RaftSafety", quick=dict(checks=1600, shards=16, timeout=600), thorough=dict(checks=160000, shards=16, timeout=3300)),
+        dict(test="TestC08Deployed", quick=dict(checks=192, shards=16, timeout=600), thorough=dict(checks=9600, shards=16, timeout=3300)),
     ],
 )
 
